@@ -240,6 +240,11 @@ def do_call(tid, c):
             obs.stop()
         elif op == "join":
             obs.join()
+        elif op == "rootgone":
+            # the watched directory disappears (fake kernel only): its watch is dropped, DELETE_SELF/IGNORED are queued
+            k = getattr(ENV, "kernel", None)
+            if k is not None:
+                k.path_gone(os.fsencode(ENV.wp(c[1])))
         elif op == "pause":
             ds._sleep(0.5)
         else:
@@ -651,9 +656,11 @@ def gen_program(rng, kind="scripted", reentrant=None, max_calls=4, ops=None):
         op = rng.choice(ops)
         if op in ("schedule", "add", "remove"):
             return [op, rng.randrange(nh), rng.randrange(nw)]
-        if op == "unschedule":
+        if op in ("unschedule", "rootgone"):
             return [op, rng.randrange(nw)]
         return [op]
+    if kind == "inotify" and "rootgone" not in ops:
+        ops = ops + ["rootgone", "rootgone"]
     # a prelude that makes most programs interesting: schedule some, start
     pre = []
     for w in range(nw):
